@@ -41,6 +41,8 @@ def _observe(kind, impl, ref):
 
 def same_behaviour(a, b, n):
     """Observable equality of two policy objects: victim and representation now and after any one further access."""
+    # observe copies only: the objects handed in stay untouched (an observer call is an operation of its own in the BFS)
+    a, b = copy.deepcopy(a), copy.deepcopy(b)
     if a.get_next_to_replace() != b.get_next_to_replace() or list(a.get_repr()) != list(b.get_repr()):
         return False
     for j in range(n):
@@ -60,41 +62,63 @@ def replay_hist(kind, n, hist):
     return impl, ref
 
 
+def apply_op(kind, impl, ref, op):
+    """op: ('a', i) access | ('r',) get_repr | ('v',) get_next_to_replace. Returns (field, detail) or None."""
+    try:
+        if op[0] == "a":
+            impl.access(op[1])
+            ref.access(op[1])
+            return None
+        if op[0] == "r":
+            got = list(impl.get_repr())
+            exp = list(ref.ranks() if kind == "lru" else ref.bits())
+            return None if got == exp else ("repr", f"get_repr() {got}, reference {exp}")
+        got = impl.get_next_to_replace()
+        return None if got == ref.victim() else ("victim", f"next victim {got}, reference {ref.victim()}")
+    except Exception as e:  # noqa
+        return ("exception", f"{type(e).__name__}: {e}")
+
+
+def opn(op):
+    return f"access({op[1]})" if op[0] == "a" else ("get_repr()" if op[0] == "r" else "get_next_to_replace()")
+
+
 def policy_space(shard):
-    """Complete reachable state space of one policy object: every access from every state."""
+    """Complete reachable state space of one policy object. Operations: every access AND the two observers (an observer's
+    answer must not depend on earlier observer calls, so they are operations on the live object, not side conditions)."""
     kind, n = shard
     p = Partial()
     impl, ref = make(kind, n)
+    ops = [("a", i) for i in range(n)] + [("r",), ("v",)]
     seen = {(canon(impl), ref.key()): ()}
     frontier = [((), impl, ref)]
-    for f, d in observe(kind, impl, ref):
-        p.violation(dict(oracle="policy", policy=kind, field=f), dict(kind="policy", policy=kind, n=n, hist=[]), f"{kind}({n}) initial: {d}")
     while frontier:
         nxt = []
         for hist, impl, ref in frontier:
-            for i in range(n):
+            for op in ops:
                 im2 = copy.deepcopy(impl)
                 rf2 = ref.copy()
-                h2 = hist + (i,)
+                h2 = hist + (op,)
                 p.transitions += 1
                 p.evaluations += 1
                 p.traces += 1
-                rf2.access(i)
-                try:
-                    im2.access(i)
-                    bad = observe(kind, im2, rf2)
-                    # idempotence: a second access to the same block leaves the state unchanged
-                    im3 = copy.deepcopy(im2)
-                    im3.access(i)
-                    if not same_behaviour(im3, im2, n):
-                        bad.append(("idempotence", f"access({i}) twice differs from access({i}) once (victim / get_repr now or after one more access)"))
-                except Exception as e:  # noqa
-                    bad = [("exception", f"access({i}) raised {type(e).__name__}: {e}")]
-                    im2 = None
-                for f, d in bad:
-                    p.violation(dict(oracle="policy", policy=kind, field=f), dict(kind="policy", policy=kind, n=n, hist=list(h2)),
-                                f"{kind}({n}) after accesses {list(h2)}: {d}", size=(len(h2), h2))
-                if im2 is None:
+                bad = []
+                d = apply_op(kind, im2, rf2, op)
+                if d:
+                    bad.append(d)
+                elif op[0] == "a":
+                    try:
+                        # idempotence: a second access to the same block leaves the observable state unchanged
+                        im3 = copy.deepcopy(im2)
+                        im3.access(op[1])
+                        if not same_behaviour(im3, im2, n):
+                            bad.append(("idempotence", f"access({op[1]}) twice differs from access({op[1]}) once (victim / get_repr now or after one more access)"))
+                    except Exception as e:  # noqa
+                        bad.append(("exception", f"{type(e).__name__}: {e}"))
+                for f, dd in bad:
+                    p.violation(dict(oracle="policy", policy=kind, field=f), dict(kind="policy", policy=kind, n=n, hist=[list(o) for o in h2]),
+                                f"{kind}({n}) after {[opn(o) for o in h2]}: {dd}", size=(len(h2), tuple(map(str, h2))))
+                if d and d[0] == "exception":
                     continue
                 k = (canon(im2), rf2.key())
                 if k not in seen:
@@ -107,31 +131,35 @@ def policy_space(shard):
             break
     p.states = len(seen)
     p.notes["space"] = (kind, n, len(seen))
-    p.sample(dict(kind="policy", policy=kind, n=n, hist=list(max(seen.values(), key=len))))
+    p.sample(dict(kind="policy", policy=kind, n=n, hist=[opn(o) for o in max(seen.values(), key=len)]))
     return p
 
 
 def replay(case):
     if case["kind"] == "cache-history":
         return cachebfs.replay(case)
-    kind, n, hist = case["policy"], case["n"], case["hist"]
-    try:
-        impl, ref = replay_hist(kind, n, hist)
-    except Exception as e:  # noqa
-        return [(dict(oracle="policy", policy=kind, field="exception"), f"{kind}({n}) after {hist}: {type(e).__name__}: {e}")]
-    bad = observe(kind, impl, ref)
-    if hist:
+    kind, n = case["policy"], case["n"]
+    hist = [tuple(o) for o in case["hist"]]
+    impl, ref = make(kind, n)
+    out = []
+    for k, op in enumerate(hist):
+        d = apply_op(kind, impl, ref, op)
+        if d:
+            out.append((dict(oracle="policy", policy=kind, field=d[0]), f"{kind}({n}) after {[opn(o) for o in hist[:k + 1]]}: {d[1]}"))
+            break
+    if not out and hist and hist[-1][0] == "a":
         im3 = copy.deepcopy(impl)
-        im3.access(hist[-1])
+        im3.access(hist[-1][1])
         if not same_behaviour(im3, impl, n):
-            bad.append(("idempotence", "second access changes the observable state"))
-    return [(dict(oracle="policy", policy=kind, field=f), f"{kind}({n}) after {hist}: {d}") for f, d in bad]
+            out.append((dict(oracle="policy", policy=kind, field="idempotence"), "second access changes the observable state"))
+    return out
 
 
 def run(ctx):
     thorough = not ctx.quick
-    ctx.rule = ("(1) complete reachable state space of LRU(n) and PLRU(n) objects: BFS to a fixed point, every access from every state, "
-                "victim / get_repr() against reference policies (LRU by time stamps, PLRU as an explicit recursive tree), idempotence of a "
+    ctx.rule = ("(1) complete reachable state space of LRU(n) and PLRU(n) objects: BFS to a fixed point over the operations {access(i), get_repr(), "
+                "get_next_to_replace()} from every state (the observers are operations on the live object: their answers must not depend on earlier observer "
+                "calls), victim / get_repr() against reference policies (LRU by time stamps, PLRU as an explicit recursive tree), idempotence of a "
                 "repeated access; (2) binding to the cache set: BFS to closure over word reads/writes of ways+1 colliding tags on a real "
                 "one-set data cache (constant data), comparing way-by-way tags and the replacement_status shown by cache_repr() after every "
                 "read hit, write hit and fill. Non-trivial = a state whose victim is not way 0 / a history with an eviction.")
